@@ -46,6 +46,11 @@ fn gen_entries(rng: &mut Rng, big: bool) -> Vec<(OV, OV)> {
     let strings = rng.chance(1, 4);
     while es.len() < n {
         let k = match rng.below(5) {
+            // keys with equal 32-bit hashes ("costarring"/"liquid", 46749629/344036725) and a key that
+            // shares their home bucket in a small table ("b"): a lookup that trusts the hash alone
+            // confuses them once one of them sits in its home bucket
+            0 if rng.chance(1, 3) => OV::Str(rng.pick(&["b", "costarring", "liquid", "b", "liquid", "costarring"]).as_bytes().to_vec()),
+            0 if rng.chance(1, 4) => OV::Int(*rng.pick(&[46749629i64, 344036725])),
             0 => OV::Str(format!("k{}", rng.below(20)).into_bytes()),
             1 => OV::Real((rng.range(1, 9) as f64 + 0.5).to_bits()),
             _ => OV::Int(rng.range(-3, 20)),
